@@ -1,7 +1,7 @@
 #!/bin/bash
 # usage: confirm_seed.sh <PROP> <N>   — confirm a sub-agent's seeded change in ITS scratch worktree /tmp/seed-<PROP>
 # (suite passes with patch; demo fails with patch; demo passes without) and store it under /verif/seeded/<PROP>-<N>/
-P=$1; N=$2; W=/tmp/seed-$P; O=$W/out; D=/verif/seeded/$P-$N
+P=$1; N=$2; PFX=${3:-seed}; TAG=${4:-}; W=/tmp/$PFX-$P; O=$W/out; D=/verif/seeded/$P-$TAG$N
 set -u
 cd $W || exit 2
 git checkout -q -- . ; git clean -fdq -e out -e target
